@@ -312,3 +312,14 @@ Proof.
   rewrite (H (s2l "VERS")) by (cbn; auto). rewrite (H (s2l "WRAP")) by (cbn; auto).
   rewrite (H (s2l "DLM")) by (cbn; auto 6). rewrite (H (s2l "NULL")) by (cbn; auto 6). reflexivity.
 Qed.
+
+(* junk lines in a ~V / ~W section (or any other) do not change the steering values *)
+Theorem junk_update_steering v k c cc tr ig letter lines lines' r r' ps :
+  ins_lines (junk_line v k c tr) lines lines' ->
+  parse_body v k c ig cc tr lines [] = POk r ->
+  parse_body v k c ig cc tr lines' [] = POk r' ->
+  update_steering letter (mksect r' tr) ps = update_steering letter (mksect r tr) ps.
+Proof.
+  intros J H H'. apply update_steering_frame. intros key Hk.
+  apply (junk_steering_lookup v k c cc tr ig key lines lines' [] r r' Hk); try assumption. constructor.
+Qed.
